@@ -19,7 +19,7 @@ def trip_items(trip):
     k = trip[0]
     if k == "const":
         return [("push", trip[1])]
-    if k in ("arg", "pinned"):
+    if k in ("arg", "pinned", "pinned_range"):
         return [("push", 4), "CALLDATALOAD"]
     if k == "and":
         return [("push", trip[1]), ("push", 4), "CALLDATALOAD", "AND"]
@@ -32,7 +32,7 @@ def trip_value(trip, x):
     k = trip[0]
     if k == "const":
         return trip[1]
-    if k in ("arg", "pinned"):
+    if k in ("arg", "pinned", "pinned_range"):
         return x
     if k == "and":
         return x & trip[1]
@@ -67,13 +67,20 @@ def build_regular(p):
     items = l3.dispatcher([(sig, "F")]) + [("label", "F"), "POP"]
     if p["trip"][0] == "pinned":
         items += [("push", 4), "CALLDATALOAD", ("push", p["trip"][1]), "EQ", ("ref", "OKPIN"), "JUMPI", "PUSH0", "PUSH0", "REVERT", ("label", "OKPIN")]
+    if p["trip"][0] == "pinned_range":
+        # require(x < n + 1); require(x > n - 1): the value is fixed by the path but the loop condition stays a
+        # symbolic term (no equality for halmos' concretization): the solver decides it (must_true / must_false)
+        n = p["trip"][1]
+        items += [("push", n + 1), ("push", 4), "CALLDATALOAD", "LT", ("ref", "OKHI"), "JUMPI", "PUSH0", "PUSH0", "REVERT", ("label", "OKHI")]
+        if n > 0:
+            items += [("push", n - 1), ("push", 4), "CALLDATALOAD", "GT", ("ref", "OKLO"), "JUMPI", "PUSH0", "PUSH0", "REVERT", ("label", "OKLO")]
     body = [("push", 1), "SLOAD", ("push", 1), "ADD", ("push", 1), "SSTORE"] if p.get("body") == "storage" else []
     items += loop_items(p["trip"], p["form"], "a", body) + after_loop(p["K"], "a")
     rt = assemble(items)
     c = l3.Contract("T", [("check_loop", ["uint256"])], rt)
     xs = sorted({0, 1, 2, 3, 4, 5, 7, 8, 9, p["K"], p["K"] + 8, p["K"] + 16, p["trip"][1] if len(p["trip"]) > 1 else 0, M - 1})
     truth = [[[l3.FOUNDRY_TEST, (l3.selector(sig) + x.to_bytes(32, "big")).hex()]] for x in xs]
-    return {"contracts": [c], "test": sig, "truth": truth, "concrete_loop": p["trip"][0] in ("const", "pinned")}
+    return {"contracts": [c], "test": sig, "truth": truth, "concrete_loop": p["trip"][0] in ("const", "pinned", "pinned_range")}
 
 
 def build_depth(p):
@@ -187,6 +194,10 @@ def gen_cases(r, tier):
         cases.append({"family": "regular", "params": {"trip": ["const", n], "form": form, "K": n, "body": r.choice(["none", "storage"])}, "options": ["--loop", str(L)]})
     for n in ([3, 6] if tier == "quick" else [1, 3, 6, 12]):
         cases.append({"family": "regular", "params": {"trip": ["pinned", n], "form": forms[n % 3], "K": n, "body": "none"}, "options": ["--loop", "1"]})
+    # pinned by a range: the solver (not the syntax) makes the condition constant
+    for n, L, form in ([(3, 1, "while"), (4, 2, "while_not"), (3, 2, "countdown")] if tier == "quick" else
+                       [(n, L, f) for n in (0, 1, 3, 4, 7) for L in (1, 2) for f in forms]):
+        cases.append({"family": "regular", "params": {"trip": ["pinned_range", n], "form": form, "K": n, "body": "none"}, "options": ["--loop", str(L)]})
     # symbolic trip counts: K below / at / above the bound
     trips = [["arg"], ["and", 7], ["mod", 6]]
     for L in loops:
